@@ -113,6 +113,13 @@ func runReinvest(ctx *action.Context, tx action.RawTx) (bool, action.Response) {
 
 	// cut rewards
 	coinAmt := invest.Amount.ToCoin(ctx.Currencies)
+	// a negative amount would raise the reward balance and lower pool and active delegation
+	if !coinAmt.IsValid() {
+		return helpers.LogAndReturnFalse(ctx.Logger, action.ErrInvalidAmount, invest.Tags(), errors.New("Coin is not valid"))
+	}
+	if coinAmt.Currency.Name != "OLT" {
+		return helpers.LogAndReturnFalse(ctx.Logger, action.ErrInvalidCurrency, invest.Tags(), errors.New("currency is not OLT"))
+	}
 	err = ctx.NetwkDelegators.Rewards.MinusRewardsBalance(invest.Delegator, coinAmt.Amount)
 	if err != nil {
 		return helpers.LogAndReturnFalse(ctx.Logger, netwkDeleg.ErrReinvestRewards, invest.Tags(), err)
